@@ -187,3 +187,33 @@ Theorem C07_transport_model_passes : forall kind chmap pkts,
   tr_client_ok kind chmap pkts (C01Wire.client_view chmap (v_got (vrun kind v0 pkts))) (negb (v_open (vrun kind v0 pkts))) = true.
 Proof. exact tr_model_passes. Qed.
 Print Assumptions C07_transport_model_passes.
+
+(* ------------------------------------------------------------------------- *)
+(* the stream's shared metadata (Model/C07Meta.v): set once, never replaced *)
+From V Require Import C07Meta C07MetaProofs.
+
+(* whatever arrives — truncated, bit-flipped, oversized parameter-set NAL units, alone, aggregated or
+   reassembled — a stream whose parameter sets are known keeps exactly them; hence the converters of
+   C07_stream_survives run under the metadata in force before the input *)
+Theorem C07_malformed_paramset_does_not_poison : forall hevc nals m,
+  sets_known hevc m = true -> meta_run hevc m nals = m.
+Proof. exact malformed_paramset_does_not_poison. Qed.
+Print Assumptions C07_malformed_paramset_does_not_poison.
+
+Theorem C07_paramset_set_once_h264 : forall m nal,
+  (m_sps m <> [] -> m_sps (meta_update264 m nal) = m_sps m) /\
+  (m_pps m <> [] -> m_pps (meta_update264 m nal) = m_pps m).
+Proof. exact set_once_264. Qed.
+Print Assumptions C07_paramset_set_once_h264.
+
+(* refuted for "follow every in-band set" (seeded C07-r7) *)
+Theorem C07_follow_inband_refuted :
+  exists m nal, sets_known false m = true /\ meta_update264 m nal = m /\ m_sps (meta_follow264 m nal) = nal /\ nal <> m_sps m.
+Proof. exact follow_inband_refuted. Qed.
+Print Assumptions C07_follow_inband_refuted.
+
+(* the oracle's metadata clause (meta_kept) accepts the model: the model's metadata after any run is the initial one *)
+Theorem C07_meta_model_passes : forall c fs,
+  meta_kept c (fs ++ meta_frames (meta_after c fs)) = true \/ exists o, In o fs /\ is_meta_frame o = true.
+Proof. exact meta_model_passes. Qed.
+Print Assumptions C07_meta_model_passes.
